@@ -59,6 +59,19 @@ impl ChildOut {
     }
 }
 
+/// The wall-clock offset (seconds) a process start runs under, a function of its randomness seed:
+/// two starts in three see the real time, the others a clock that is hours, weeks or decades off
+/// in either direction.
+pub fn clock_offset_of(rand: u64) -> i64 {
+    const OFFS: [i64; 10] = [3600, -3600, 86_400 * 40, -86_400 * 40, 86_400 * 3650, -86_400 * 3650, 1, -1, 86_400 * 365 * 60, -86_400 * 365 * 30];
+    let r = crate::rng::derive(rand, "clock", 0);
+    if r % 3 != 0 {
+        0
+    } else {
+        OFFS[((r / 3) % OFFS.len() as u64) as usize]
+    }
+}
+
 /// CPUs this process may run on.
 pub fn allowed_cpus() -> Vec<usize> {
     unsafe {
@@ -111,7 +124,7 @@ impl Launcher {
 
     fn seed_randomness(&self, cmd: &mut Command, rand: u64) {
         if let Some(p) = self.shim() {
-            cmd.env("LD_PRELOAD", p).env("VERIF_RANDOM_SEED", rand.to_string());
+            cmd.env("LD_PRELOAD", p).env("VERIF_RANDOM_SEED", rand.to_string()).env("VERIF_CLOCK_OFFSET", clock_offset_of(rand).to_string());
         }
     }
 
